@@ -36,22 +36,6 @@ type c03Case struct {
 	Expected string     `json:"expected"`
 }
 
-func c03OwnRoute(rt *rapid.T, s *stdSvc, L *mTransport) ANameAddr {
-	u := AURI{Scheme: "sip", Host: L.Addr, Port: L.Port, Params: []AParam{{K: "lr"}}}
-	switch rapid.IntRange(0, 2).Draw(rt, "ownform") {
-	case 1:
-		u.Host = []string{"proxy-a.test", "proxy-b.test", "proxy-c.test"}[L.Entry]
-	case 2:
-		if L.Port == 5060 {
-			u.Port = 0
-		}
-	}
-	if rapid.Bool().Draw(rt, "ownuser") {
-		u.User = gWord(rt, "ownuserv")
-	}
-	return ANameAddr{URI: u}
-}
-
 func c03Build(rt *rapid.T, s *stdSvc, cell c03Cell, g stdIngress) *AMsg {
 	L := s.transportOf(g)
 	p := msgParts{IsReq: true, Version: "SIP/2.0"}
@@ -95,8 +79,13 @@ func c03Build(rt *rapid.T, s *stdSvc, cell c03Cell, g stdIngress) *AMsg {
 	switch cell.To {
 	case 0:
 		toHost = []string{"static-udp.test", "static-tcp.test", "static-tls.test"}[cell.Trans]
-		if cell.Trans == 0 && rapid.IntRange(0, 3).Draw(rt, "noport") == 0 {
-			toHost = "static-noport.test"
+		if cell.Trans == 0 {
+			switch rapid.IntRange(0, 5).Draw(rt, "exactkind") {
+			case 0:
+				toHost = "static-noport.test"
+			case 1:
+				toHost = "lit.wudp.test" // literal covered by a wildcard configured before it
+			}
 		}
 	case 1:
 		toHost = lab + []string{".wudp.test", ".wtcp.test", ".wtls.test"}[cell.Trans]
